@@ -5,23 +5,6 @@ use crate::c09::*;
 
 /// Test generated for harness `c09::c09_shift_beyond_collect_n1` 
 ///
-/// Check for `assertion`: "attempt to subtract with overflow"
-
-#[test]
-fn kani_concrete_playback_c09_shift_beyond_collect_n1_17398279283199356672() {
-    let concrete_vals: Vec<Vec<u8>> = vec![
-        // -1
-        vec![255, 255, 255, 255],
-        // 4
-        vec![4, 0, 0, 0],
-        // -1
-        vec![255, 255, 255, 255],
-    ];
-    kani::concrete_playback_run(concrete_vals, c09_shift_beyond_collect_n1);
-}
-
-/// Test generated for harness `c09::c09_shift_beyond_collect_n1` 
-///
 /// Check for `safety_check`: "Offset result and original pointer must point to the same allocation"
 
 #[test]
@@ -31,6 +14,23 @@ fn kani_concrete_playback_c09_shift_beyond_collect_n1_8657800717784508351() {
         vec![255, 255, 255, 255],
         // -3
         vec![253, 255, 255, 255],
+        // -1
+        vec![255, 255, 255, 255],
+    ];
+    kani::concrete_playback_run(concrete_vals, c09_shift_beyond_collect_n1);
+}
+
+/// Test generated for harness `c09::c09_shift_beyond_collect_n1` 
+///
+/// Check for `assertion`: "attempt to subtract with overflow"
+
+#[test]
+fn kani_concrete_playback_c09_shift_beyond_collect_n1_17398279283199356672() {
+    let concrete_vals: Vec<Vec<u8>> = vec![
+        // -1
+        vec![255, 255, 255, 255],
+        // 4
+        vec![4, 0, 0, 0],
         // -1
         vec![255, 255, 255, 255],
     ];
